@@ -108,6 +108,8 @@ MUTANTS = [
     ("C17", "detect", "specs/openapi/examples.py", "                name: next(islice(cycle(parameter_variants), idx, None))", "                name: next(islice(cycle(parameter_variants), 0, None))", "always the first example of every parameter"),
     # ---- C18
     ("C18", "detect", CHK, "    if not (400 <= response.status_code < 500):", "    if not (400 <= response.status_code <= 500):", "ensure_resource_availability counts 500"),
+    ("C18", "detect", "engine/recorder.py", "        interaction = self.interactions.get(case_id)\n        if interaction is None or interaction.response is None:\n            return None\n        return interaction.response", "        for interaction in self.interactions.values():\n            if interaction.response is not None:\n                return interaction.response\n        return None", "find_response returns the first recorded response, not this case's"),
+    ("C18", "detect", "engine/recorder.py", "            parent = self.cases.get(case.parent_id)", "            parent = self.cases.get(case_id)", "find_parent returns the case itself"),
     # ---- C19
     ("C19", "detect", "hooks.py", "    return filter_set is not None and ctx.operation is not None and not filter_set.match(ctx)", "    return filter_set is not None and ctx.operation is not None and filter_set.match(ctx)", "hook filter inverted"),
     ("C19", "detect", "hooks.py", "        for hook in self.get_all_by_name(f\"filter_{container}\"):\n            if _should_skip_hook(hook, context):\n                continue", "        for hook in self.get_all_by_name(f\"filter_{container}\"):\n            if False:\n                continue", "filter_* hooks ignore their own filters"),
